@@ -29,4 +29,23 @@ def toHex (bs : List Nat) : String :=
 def words (line : String) : List String :=
   (line.trimAscii.toString.splitOn " ").filter (· ≠ "")
 
+/-- Generic line loop for a (possibly stateful) driver: one operation per line
+    in, one canonical line out; empty lines are echoed as empty lines. -/
+partial def runLoop {σ : Type} (init : σ) (step : σ → List String → σ × String) : IO Unit := do
+  let i ← IO.getStdin
+  let o ← IO.getStdout
+  let rec go (s : σ) : IO Unit := do
+    let line ← i.getLine
+    if line.isEmpty then return ()
+    let ws := words line
+    if ws.isEmpty then
+      o.putStrLn ""
+      go s
+    else
+      let (s', out) := step s ws
+      o.putStrLn out
+      go s'
+  go init
+  o.flush
+
 end Drivers
